@@ -8,7 +8,6 @@ search():      on-mesh points (vertices, facet / edge points), interior and outs
                cell the real finder returns; probes / interpolator / point_source against a one-point-at-a-time
                evaluation of the located cell's local expansion; probes at the quadrature points against interpolate.
 """
-import itertools
 from fractions import Fraction as Fr
 
 import numpy as np
@@ -381,11 +380,33 @@ def line_mesh(rng, n):
 
 # ============================================================================ correspond()
 
-def correspond(ctx, facts, ok, batch):
+class Collector:
+    """gathers correspondence jobs together with the generated / tie files their evaluation needs"""
+
+    def __init__(self):
+        self.jobs, self.req = [], []
+
+    def add(self, *a, **kw):
+        self.jobs.append((list(self.req), a, kw))
+
+
+def run_correspondence(ctx, coll, ok):
+    from .c15_oracle import CorrBatch
+    batch = CorrBatch(ctx)
+    for req, a, kw in coll.jobs:
+        if all(ok.get(r) for r in req):
+            batch.add(*a, **kw)
+    batch.run()
+
+
+def correspond(ctx, facts, batch):
+    """run the real finders / probes (no Coq needed) and queue the comparisons with the model"""
     rng = ctx.rng
     nprng = np.random.default_rng(ctx.seed + 14)
-    need = ['gen/C14GenAffine.v', 'gen/C14GenTri.v', 'gen/C14GenTet.v', 'gen/C14GenSplits.v', 'dyn/C14_TieGeom.v', 'dyn/C14_TieFinder.v']
-    if all(ok.get(n) for n in need):
+    need = ['gen/C14GenAffine.v', 'gen/C14GenTri.v', 'gen/C14GenTet.v', 'gen/C14GenSplits.v', 'gen/C14GenProbes.v',
+            'dyn/C14_TieGeom.v', 'dyn/C14_TieFinder.v']
+    batch.req = need
+    if 'C14GenTri' in facts and 'C14GenTet' in facts:
         # ---- simplex finders: robustly decidable points (interior with margin, outside with margin)
         for which, dim in (('tri', 2), ('tet', 3)):
             cases = []
@@ -427,6 +448,7 @@ def correspond(ctx, facts, ok, batch):
             batch.add(f'finder_{which}', IMPORTS, f'run_{which}', 'onats_eqb', cases, defs=MESH_DEFS, per_file=ctx.n(20, 40),
                       nontrivial=lambda r: r[2] >= 2 or r[3] == 'raises')
     # ---- 1-D finder: exact on every kind of point
+    batch.req = []
     cases = []
     for _ in range(ctx.n(40, 160)):
         m = line_mesh(rng, rng.randrange(2, 8))
@@ -453,7 +475,8 @@ def correspond(ctx, facts, ok, batch):
              'line_finder ps ixs maxt xs.\nDefinition onats_eqb := option_eqb nats_eqb.\n',
         nontrivial=lambda r: r[2] >= 2 or r[3] == 'raises')
     # ---- probes: the COO index arrays
-    if ok.get('gen/C14GenProbes.v'):
+    batch.req = ['gen/C14GenProbes.v']
+    if 'C14GenProbes' in facts:
         import skfem
         cases = []
         cfgs = [('tri', 'ElementTriP1', 1), ('tri', 'ElementTriP2', 1), ('tri', 'ElementVector:ElementTriP1', 2), ('tri', 'ElementTriRT1', 2),
